@@ -617,7 +617,7 @@ class RealCase:
 			# the file system itself (a file where a directory is needed: NotADirectoryError / IsADirectoryError) is not modelled:
 			# output files carry a dot in their name, directories never do (e.g. the prefix rule 'app/x.h:out/' maps app.x to the FILE 'out')
 			parts = rel.split(os.sep)
-			if '.' not in parts[-1] or any('.' in d for d in parts[:-1]):
+			if rel in ('.', '') or os.path.isdir(p) or '.' not in parts[-1] or any('.' in d for d in parts[:-1]):
 				return False
 		return True
 
